@@ -39,6 +39,16 @@ Decide(closed, method, eio, transport, sid) ==
         ELSE IF transport = "websocket" THEN R("err", 0 - 1, "none") \* failed upgrade handshake
         ELSE R("400", 3, "none")
 
+\* Real websocket handshakes (an HTTP Upgrade request) that name a session.  Only a live session that is
+\* still on long-polling may be upgraded; for every other session state the request is refused and the
+\* session it names is left as it is (a second "upgrade" of an upgraded session must not take it over).
+WsSids == {"unknown", "closed", "polling", "upgraded", "wsdirect"}
+\* result: "101" (switching protocols) or "refused" (any status >= 400); takeover: may the new connection
+\* become the session's transport after it sent the probe and the UPGRADE packet
+DecideWs(sidState) ==
+    IF sidState = "polling" THEN [status |-> "101", takeover |-> TRUE]
+    ELSE [status |-> "refused", takeover |-> FALSE]
+
 \* theorems of the table (checked by TLC over the whole matrix)
 ErrorsCreateNothing ==
     \A c \in BOOLEAN, m \in Methods, e \in Eios, t \in Transports, s \in Sids :
